@@ -25,11 +25,11 @@ vlib.standard_check({
     "signature": signature,
     "eval_key": "ops",
     "nontrivial": lambda t: t.get("value_comparisons", 0) + t.get("replayed_statements", 0),
-    "rule": "generated designs (1-2 clocks with different reset/trigger configurations, Bit and UInt pins of widths 1..130, counters, registers with and "
+    "rule": "generated designs (1-2 clocks, the second optionally derived from the first, with different reset/trigger configurations and reset durations given in cycles and/or as a time that is not a clock edge, Bit and UInt pins of widths 1..130, counters, registers with and "
             "without reset, enables, muxes, adders, concatenations, named signals in nested areas, taps, optional memory) simulated by the real "
             "ReferenceSimulator under 1-2 generated simulation processes per clock (AfterClk / OnClk / BeforeClk / WaitFor / WaitStable, partially "
             "undefined stimuli) with a real VCDSink (random signal selection) and a real FileBasedTestbenchRecorder; every commit of every recorded "
-            "signal is compared with the value read back from the real .vcd, every line of both files with the model, every CHECK/RST of the real "
+            "signal is compared with the value read back from the real .vcd, every clock and reset line as a function of time with what onClock/onReset reported, every line of both files with the model, every CHECK/RST of the real "
             ".testvectors is replayed into a fresh simulator; non-trivial = value comparisons + replayed statements",
     "trusted_base": ["Lean 4.33 kernel", "axioms: propext, Classical.choice, Quot.sound only (audited per theorem)",
                      "harness/c20.cpp (independent SimulatorCallbacks samplers, replay semantics: a group written exactly on a clock edge acts before "
